@@ -54,5 +54,5 @@ def replay(chk: Check, data):
         chk.tv("Trace_Results.tla", [R.builtin_codes_run(h["seed"])], tag="results", keyfn=lambda r: f"results:{r.conjunct}")
         return
     t = R.one_run(h["tbl"], [(c["type"], c["dur"], c["thin"]) for c in h["sched"]], J=h.get("J", 1),
-                  shared_book=bool(h.get("shared_book")))
+                  shared_book=bool(h.get("shared_book")), local_class=bool(h.get("local_class")))
     chk.tv("Trace_Results.tla", [t], tag="results", keyfn=lambda r: f"results:{r.conjunct}")
